@@ -14,6 +14,7 @@ require (
 	github.com/iotaledger/hive.go/runtime v0.0.0
 	github.com/iotaledger/hive.go/serializer/v2 v2.0.0
 	github.com/iotaledger/hive.go/web v0.0.0-00010101000000-000000000000
+	github.com/pokt-network/smt v0.9.2
 )
 
 require (
@@ -24,7 +25,6 @@ require (
 	github.com/iotaledger/hive.go/stringify v0.0.0-20240315104458-b689cbcfddbd // indirect
 	github.com/kr/text v0.2.0 // indirect
 	github.com/petermattis/goid v0.0.0-20231207134359-e60b3f734c67 // indirect
-	github.com/pokt-network/smt v0.9.2 // indirect
 	github.com/sasha-s/go-deadlock v0.3.1 // indirect
 )
 
